@@ -437,10 +437,10 @@ def execute(prop, plan, tier, seed, expinfo, t_start):
     for v in violations:
         hit = None
         for k in kf:
-            if k.get('obligation') == v['tag']:
+            if k.get('obligation') == v['tag'] or v['tag'] in k.get('obligations', []):
                 hit = k
         if hit:
-            kf_lines.append('KNOWN-FINDING: property=%s %s [%s]' % (prop, hit.get('what', ''), v['tag']))
+            kf_lines.append('KNOWN-FINDING: property=%s %s' % (prop, hit.get('what', '')[:400]))
         else:
             reported.append(v)
     # a known finding's obligation counts as decided (refuted, recorded), not discharged
